@@ -104,6 +104,7 @@ ADD_TEXT = {
  'C13': 'Terminal::Impl::onRecvString (scanner restarted per segment and per key, every completed key dispatched to exactly its editor action once). Telnetd::Impl::onTcpReceived framing loop: bounds of every byte looked at, complete-negotiation-or-wait, progress (bounded domain: 64 pending bytes).',
  'C14': 'Rpc::request / onRecvRespond / onRequestTimeout: one fresh id per request for callback, deadline and message; an outstanding id is completed exactly once, unknown / duplicate / late ids are ignored. Proto::onRecvJson: no exception for any JSON content, at most one callback per message, recursion into batch elements bounded by one level.',
  'C15': 'UdpSocket::onSocketEvent hands the receive callback only bytes that recvfrom stored; Deserializer::checkSize / setEndian are under contract.',
+ 'C19': 'HexStrToRawData(text, buffer, capacity): writes inside the stated capacity, reads inside the text, size rule, invalid digit -> exception (character values abstract).',
  'C18': 'Condition<int>, Broadcast and the Scheduler bookkeeping around the context switches (makeRoutineReady, resume, cancel, switchToRoutine, wait, yield, join; swapcontext as a direction-specific stub) are under contract as well.',
 }
 FIX_NOTE = {
